@@ -127,8 +127,8 @@ def option_subsets(fmt, dev):
         yield {k: True for k in LABEL_OPTS}
 
 
-def build_variant(mt, none):
-    t = build(mt)
+def build_variant(mt, none, order=None):
+    t = build(mt, child_order=order)
     for x in all_nodes(t):
         for f in none:
             x.data[f] = None
@@ -174,17 +174,17 @@ def expected_struct(mt, none, opts, paren_map, with_edges, skip_root_label=False
     return root, toks
 
 
-def check_one(mtj, none, fmt, opts):
+def check_one(mtj, none, fmt, opts, order=None):
     mt = model.MT.from_json(mtj)
     none = tuple(none)
-    case = {'mt': mtj, 'none': list(none), 'fmt': fmt, 'opts': opts}
+    case = {'mt': mtj, 'none': list(none), 'fmt': fmt, 'opts': opts, 'order': order}
     out = []
 
     def bad(kind, detail):
         out.append({'kind': kind, 'where': 'treeoutput.' + fmt, 'case': case,
                     'detail': '%s [tree %s, None fields %r, options %r]' % (detail, model.mt_str(mt.root, mt.toks), none, opts),
                     'what': '%s writer: %s' % (fmt, kind)})
-    t = build_variant(mt, none)
+    t = build_variant(mt, none, order)
     disc = model.mt_tree_gap_degree(mt.root) > 0
     stream = io.StringIO()
     try:
@@ -262,7 +262,7 @@ def cmp_one(bad, got, sid, root, toks, fields, edges):
 
 def check_case(case):
     with quiet():
-        return check_one(case['mt'], case['none'], case['fmt'], case['opts'])
+        return check_one(case['mt'], case['none'], case['fmt'], case['opts'], case.get('order'))
 
 
 def run_chunk(chunk):
@@ -276,7 +276,7 @@ def run_chunk(chunk):
                 j = mt.to_json()
                 for fmt in FORMAT_OPTS:
                     for opts in option_subsets(fmt, chunk['dev']):
-                        vs = check_one(j, none, fmt, opts)
+                        vs = check_one(j, none, fmt, opts, None if res.evals % 2 else 'rev')
                         res.evals += 1
                         if name != 'plain' or opts or disc:
                             res.nontrivial += 1
